@@ -21,7 +21,8 @@ B = h.bounds(
     thorough=dict(HIST=5, VN=4, DN=3),
 )
 KINDS = ["Count", "Sum", "Mean", "Vectorize(Sum, dim=2)", "StoreFilled", "GroupBy('a')", "Histogram([0,1,2])",
-         "Histogram([0,1,2], bins=[0,0])", "Vectorize([Sum, StoreFilled(one by one)]) - results of different lengths"]
+         "Histogram([0,1,2], bins=[0,0])", "Vectorize([Sum, StoreFilled(one by one)]) - results of different lengths",
+         "Histogram([[0,1,2],[0,1]], bins=[[0],[0]]) - two-dimensional, explicit nested bins"]
 BOUNDS = dict(vars(B), kinds=KINDS, meaning="histories of <= HIST operations over {fill, compute, "
               "reset} with symbolic integer data and a context chosen per value from {none, {a:1}, "
               "{a:2,b:{c:3}}}; VarianceMeanCount on <= VN values from -2..2; DSum on <= DN values from "
@@ -64,10 +65,14 @@ def make(kind):
         return Histogram([0, 1, 2], bins=[0, 0])
     if kind == 8:
         return Vectorize([Sum(), StoreFilled(yield_as_a_group=False)])
+    if kind == 9:
+        return Histogram([[0, 1, 2], [0, 1]], bins=[[0], [0]])
     return Histogram([0, 1, 2])
 
 
 def mkdata(kind, x):
+    if kind == 9:
+        return (x, 0)
     return (x, x + 1) if kind in (3, 8) else x
 
 
@@ -134,6 +139,8 @@ def expected(kind, filled):
             bins[1] += 1
         else:
             oor += 1
+    if kind == 9:
+        bins = [[bins[0]], [bins[1]]]
     return ("ok", [("hist", bins, oor, last)])
 
 
@@ -142,11 +149,12 @@ def observe(kind, el):
         res = list(el.compute())
     except lena.core.LenaZeroDivisionError:
         return ("raises", "LenaZeroDivisionError")
-    if kind in (6, 7):
+    if kind in (6, 7, 9):
         out = []
         for r in res:
             hist, ctx = r
-            out.append(("hist", list(hist.bins), hist.n_out_of_range, ctx))
+            bins = [list(b) for b in hist.bins] if kind == 9 else list(hist.bins)
+            out.append(("hist", bins, hist.n_out_of_range, ctx))
         return ("ok", out)
     if kind == 5:
         # the order of the groups is not documented (dictionary order)
@@ -167,13 +175,13 @@ def _sorted_groups(groups):
 
 def check_history(kind: int, ops: List[int], xs: List[int], cs: List[int]) -> bool:
     """
-    pre: 0 <= kind <= 8
+    pre: 0 <= kind <= 9
     pre: 1 <= len(ops) <= B.HIST
     pre: len(xs) == len(ops) and len(cs) == len(ops)
-    pre: h.in_shard(kind + 9 * (len(ops) % 2))
+    pre: h.in_shard(kind + 10 * (len(ops) % 2))
     post: _
     """
-    kind = h.concrete(kind, 0, 8)
+    kind = h.concrete(kind, 0, 9)
     el = make(kind)
     filled = []
     with cut():
@@ -304,13 +312,14 @@ def check_dsum_precision(need: int) -> bool:
 
 
 CONDITIONS = [
-    dict(fn="check_history", shards=(18, 18), budget=(90, 1500),
+    dict(fn="check_history", shards=(20, 20), budget=(90, 1500),
          smoke=["check_history(0, [0, 0, 1, 2], [5, 6, 0, 0], [1, 2, 0, 0])",
                 "check_history(2, [0, 1, 2, 1], [5, 6, 0, 0], [1, 2, 0, 0])",
                 "check_history(5, [0, 0, 0, 1], [5, 6, 7, 0], [1, 2, 1, 0])",
                 "check_history(3, [0, 1], [5, 6], [0, 0])", "check_history(4, [0, 2, 0], [5, 6, 1], [0, 0, 1])",
                 "check_history(6, [0, 0, 1], [0, 5, 0], [0, 1, 0])", "check_history(7, [2, 0, 2], [0, 0, 0], [0, 1, 0])",
-                "check_history(8, [0, 0, 1], [4, 5, 0], [0, 1, 0])", "check_history(8, [1], [0], [0])"]),
+                "check_history(8, [0, 0, 1], [4, 5, 0], [0, 1, 0])", "check_history(8, [1], [0], [0])",
+                "check_history(9, [2, 0, 2], [0, 0, 0], [0, 1, 0])", "check_history(9, [0, 0, 1], [1, 5, 0], [0, 1, 0])"]),
     dict(fn="check_variance", shards=(5, 5), budget=(80, 900),
          smoke=["check_variance(3, 0, 2, 4, 0, True, -1)", "check_variance(1, 0, 2, 4, 0, True, -1)",
                 "check_variance(3, 0, 2, 4, 0, False, 1)"]),
